@@ -410,7 +410,7 @@ func monitor(o *outcome) []finding {
 		sum := 0
 		for _, x := range log {
 			if x.E == "tick" && x.Seq < fatalSeq {
-				sum += x.I
+				sum = satAdd(sum, x.I)
 			}
 		}
 		if c.RealClock {
@@ -425,21 +425,23 @@ func monitor(o *outcome) []finding {
 					tFatal = x.T
 				}
 			}
-			if tFatal-tLast < int64(realGrace) {
-				bad("fatal-before-grace-real", "fatal shutdown fired %v after the last runner returned; the grace period is %v", time.Duration(tFatal-tLast), realGrace)
+			if tFatal-tLast < int64(c.realEff()) {
+				bad("fatal-before-grace-real", "fatal shutdown fired %v after the last runner returned; the grace period is %v", time.Duration(tFatal-tLast), c.realEff())
 			}
 		}
-		if sum < graceUnits && !c.RealClock {
-			bad("fatal-before-grace", "fatal shutdown fired after %d of %d clock units", sum, graceUnits)
+		if sum < c.gUnits() && !c.RealClock {
+			bad("fatal-before-grace", "fatal shutdown fired after %d of %d clock units (one unit = %v)", sum, c.gUnits(), c.unit())
 		}
-		if firstCStart == none && len(o.Accepted) > 0 {
+		// with a grace period ≤ 0 (or of a few ns of wall time) closers that have not even logged their
+		// start yet already outlast it: only demanded when the period is observable
+		if firstCStart == none && len(o.Accepted) > 0 && c.gUnits() > 0 && !(c.RealClock && c.realEff() < time.Millisecond) {
 			bad("fatal-before-closers", "fatal shutdown fired before any closer was started")
 		}
 		if winner != nil && fatalSeq > winner.retSeq {
 			bad("fatal-after-run", "fatal shutdown fired after Run had returned")
 		}
 	}
-	if c.RealClock && c.Grace != "none" && c.Grace != "" && nFatal == 0 && !hung {
+	if c.RealClock && c.Grace != "none" && c.Grace != "" && nFatal == 0 && !hung && c.GraceVal == "" {
 		// wall clock: a closer that returned more than grace + slack after every closer had been seen
 		// running was still running when the timer expired ⇒ must have fired
 		var tTick int64 = -1
@@ -450,8 +452,8 @@ func monitor(o *outcome) []finding {
 			}
 		}
 		for _, x := range log {
-			if x.E == "c.ret" && tTick >= 0 && x.T > tTick+int64(realGrace)+int64(300*time.Millisecond) {
-				bad("fatal-missing-real", "closer %d returned %v after all closers were running (grace %v) but the fatal shutdown action never fired", x.I, time.Duration(x.T-tTick), realGrace)
+			if x.E == "c.ret" && tTick >= 0 && c.realEff() < time.Hour && x.T > tTick+int64(c.realEff())+int64(300*time.Millisecond) {
+				bad("fatal-missing-real", "closer %d returned %v after all closers were running (grace %v) but the fatal shutdown action never fired", x.I, time.Duration(x.T-tTick), c.realEff())
 			}
 		}
 	}
@@ -468,8 +470,8 @@ func monitor(o *outcome) []finding {
 			if !armedFrom {
 				continue
 			}
-			sum += x.I
-			if sum >= graceUnits {
+			sum = satAdd(sum, x.I)
+			if sum >= c.gUnits() {
 				stillRunning := false
 				for j, ok := range o.Accepted {
 					if r := cl[j]; ok && r != nil && len(r.starts) > 0 && r.starts[0] < x.Seq && (len(r.rets) == 0 || r.rets[0] > x.Seq) {
@@ -481,6 +483,27 @@ func monitor(o *outcome) []finding {
 				}
 				break
 			}
+		}
+	}
+	if o.NeverArmed && nFatal == 0 && !c.RealClock && c.Grace != "none" && c.Grace != "" {
+		// every accepted closer had been running for 6 s, a grace period (of any value) is configured,
+		// yet no timer exists on the manager's clock: a tick that covers the grace period while a closer
+		// was still running finds nothing to expire
+		sum := 0
+		for _, x := range log {
+			if x.E != "tick" {
+				continue
+			}
+			sum = satAdd(sum, x.I)
+			if sum < c.gUnits() {
+				continue
+			}
+			for j, ok := range o.Accepted {
+				if r := cl[j]; ok && r != nil && len(r.starts) > 0 && r.starts[0] < x.Seq && (len(r.rets) == 0 || r.rets[0] > x.Seq) {
+					bad("fatal-missing", "grace period %s: it expired while closer %d was still running, but no grace timer was ever created and the fatal shutdown action never fired", c.graceText(), j)
+				}
+			}
+			break
 		}
 	}
 	return dedupe(fs)
